@@ -100,7 +100,10 @@ trait CharExt: Sized {
 
 impl CharExt for char {
     fn has_casing(self) -> bool {
-        self.is_lowercase() != self.is_uppercase()
+        // Title case characters are neither lowercase nor uppercase, but have casing.
+        (self.is_lowercase() != self.is_uppercase())
+            || !self.to_lowercase().eq(Some(self))
+            || !self.to_uppercase().eq(Some(self))
     }
 }
 
